@@ -426,10 +426,13 @@ def account(ctx, scheds):
 
 
 def check_K(ctx, dry, model_k):
+    """the number of client calls of a fault-free reconcile: model vs real code. A difference is drift, reported
+    (by the caller) only after the traces were judged, so that a property-breaking change is still a violation."""
     for kind, k in model_k.items():
         if kind in dry and dry[kind]["K"] != k:
-            raise vlib.Infra("specification drift: fault-free reconcile of kind %s makes %d client calls in the real code, %d in the model\n%s" % (
-                kind, dry[kind]["K"], k, dry[kind]["calls"]))
+            return "specification drift: fault-free reconcile of kind %s makes %d client calls in the real code, %d in the model\n%s" % (
+                kind, dry[kind]["K"], k, dry[kind]["calls"])
+    return None
 
 
 def replay(ctx, obj, prefix):
